@@ -1,6 +1,10 @@
 package oracle
 
-import "strings"
+import (
+	"encoding/json"
+	"io/ioutil"
+	"strings"
+)
 
 // Crash oracle of C09 for the command-line slice (no coca imports): what a run of the real binary must look
 // like when "the pass terminated without a runtime panic".
@@ -36,6 +40,21 @@ func NoCrashCLIVerdict(command string, exitCode int, stderr, modulePrefix string
 		return "cli-panic@" + NoCrashTraceSite(stderr, modulePrefix) + "/" + command
 	case exitCode != 0:
 		return "cli-exit-nonzero/" + command
+	}
+	return ""
+}
+
+// NoCrashReportFile judges one report file a command wrote after exit 0: "a result that can be serialised" means the
+// file is there, is not empty and is one valid JSON text. Returns "" if so, otherwise what is wrong.
+func NoCrashReportFile(path string) string {
+	b, err := ioutil.ReadFile(path)
+	switch {
+	case err != nil:
+		return "missing"
+	case len(strings.TrimSpace(string(b))) == 0:
+		return "empty"
+	case !json.Valid(b):
+		return "not-json"
 	}
 	return ""
 }
